@@ -83,6 +83,7 @@ type Tree struct {
 	Root      Node // top-level root of the tree.
 	ParseName string
 	extCard   NodeCardinality // Function to provide cardinality of extensions
+	noExtCard bool            // none was given: extension statements may stand anywhere
 	text      string          // text parsed to create the template (or its parent)
 	lex       *lexer
 	token     [3]item // three-token lookahead for parser.
@@ -199,12 +200,14 @@ func NewWithInterners(
 	argInterner *ArgInterner,
 ) *Tree {
 
+	noExtCard := card == nil
 	if card == nil {
 		card = func(n NodeType) map[NodeType]Cardinality { return nil }
 	}
 	return &Tree{
 		ParseName:      name,
 		extCard:        card,
+		noExtCard:      noExtCard,
 		argInterner:    argInterner,
 		stringInterner: stringInterner,
 	}
